@@ -24,3 +24,22 @@ def c13_array_with_bare_reference(case, what):
     """array literal with a bare parameter reference as an element: KeyError while generating"""
     ds = _arrexpr(case)
     return any(d.get("bare") for d in ds) and what.startswith("generate:KeyError raised")
+
+
+@known_predicate
+def c13_each_constant_expression_expand_vectors(case, what):
+    """array variable with `each <attr> = <constant expression>` (a 1x1 DM) and expand_vectors: RuntimeError"""
+    if not (isinstance(case, dict) and case.get("expand") and what.startswith("expand_vectors:RuntimeError raised")):
+        return False
+    for v in case.get("vars", []):
+        if v.get("dims"):
+            for d in (v.get("attrs") or {}).values():
+                if isinstance(d, dict) and (d.get("k") == "notlit" or (d.get("k") == "expr" and not _has_par(d["e"]))):
+                    return True
+    return False
+
+
+def _has_par(e):
+    if e.get("op") == "par" or e.get("op") == "ite":
+        return True
+    return any(_has_par(e[k]) for k in ("a", "b") if k in e)
